@@ -40,7 +40,7 @@ for i in ids:
                    "engine": "pmc", "level_claimed": {"category": level, "text": text, "design_ref": "DESIGN.md " + ref},
                    "level_note": note, "technique": tech})
 m = {"version": 1, "setup_cmd": "make -C /verif/engine",
-     "hooks": {"guard": "PHOTON_VERIF", "enable": "checks compile /repo sources directly with clang (ASan, or the TSan pass with our own runtime) and interpose libc at link level; the one guarded source hook (a scheduling point before a context switch saves the outgoing context) is enabled with -DPHOTON_VERIF in the C05 targets only (harness/C05/targets.json repo_cflags)",
+     "hooks": {"guard": "PHOTON_VERIF", "enable": "checks compile /repo sources directly with clang (ASan, or the TSan pass with our own runtime) and interpose libc at link level; the guarded source hooks (a scheduling point before a context switch saves the outgoing context; WorkPool busy-yield phases skipped; TSC not consulted) are enabled with -DPHOTON_VERIF per target (repo_cflags in harness/<id>/targets.json: C05, C08 and the targets with :tso configs)",
                "baseline_off_cmd": "ctest --test-dir /repo/_build -j8 --timeout 900", "source_commits": HOOK_COMMITS, "add_only": True},
      "engines": [
         {"name": "core", "path": "engine/explorer.cpp", "serves_properties": [i for i in ids if i in CLAIMED and (flavors(i) & {"mv", "sv"})], "kind_free_text": "stateless deviation-bounded exhaustive explorer (choice-sequence DFS, levels by deviation count, deterministic replay)"},
